@@ -13,6 +13,15 @@ from contextlib import contextmanager
 VERIF = os.path.dirname(os.path.dirname(os.path.abspath(__file__)))
 COQ = os.path.join(VERIF, "coq")
 BUILD = os.path.join(VERIF, "build")
+_ALT_REPO = os.environ.get("VERIF_REPO", "/repo")
+if os.path.realpath(_ALT_REPO) != "/repo":
+    # development aid (mutation trials against a scratch worktree while other checks run): use a private
+    # copy of the Coq tree so that regenerated Gen files and .vo files do not disturb /verif/coq.
+    _tag = hashlib.sha1(os.path.realpath(_ALT_REPO).encode()).hexdigest()[:10]
+    BUILD = os.path.join(VERIF, "build", "alt-" + _tag)
+    os.makedirs(BUILD, exist_ok=True)
+    subprocess.run(["rsync", "-a", "--delete", "--exclude", "Gen/", "--exclude", ".Makefile.d", COQ + "/", os.path.join(BUILD, "coq") + "/"], check=True)
+    COQ = os.path.join(BUILD, "coq")
 LOGICAL = "QV"
 SUBDIRS = ["Common", "Gen", "Model", "Proofs", "Props"]
 NPROC = int(os.environ.get("VERIF_JOBS", "16"))
@@ -27,7 +36,7 @@ FORBIDDEN = re.compile(
 @contextmanager
 def build_lock():
     os.makedirs(BUILD, exist_ok=True)
-    with open(os.path.join(VERIF, ".build.lock"), "w") as fh:
+    with open(os.path.join(BUILD, ".build.lock"), "w") as fh:
         fcntl.flock(fh, fcntl.LOCK_EX)
         try:
             yield
